@@ -86,13 +86,27 @@ fn isqrt(x: i64) -> i64 {
 pub fn vector_with_norm(rng: &mut Prng, n: usize, target: i64) -> Option<Vec<i64>> {
     let mut t = vec![0i64; n];
     let mut rest = target;
-    // spread most of the mass randomly over all but the last 8 positions
-    let per = ((target as f64 / n as f64).sqrt() * 0.9) as i64;
-    for v in t.iter_mut().take(n - 8) {
-        let x = rng.range(-per.max(1), per.max(1));
-        if x * x <= rest {
-            *v = x;
-            rest -= x * x;
+    if target > 400_000_000 {
+        // far beyond the bound (norms of 2^32 and more, where a 32-bit accumulator or comparison wraps): follow the
+        // target adaptively so that almost all of the mass is placed before the exact finish
+        for i in 0..n - 8 {
+            let remaining = (n - 8 - i) as i64;
+            let x0 = isqrt(rest / 100 * 97 / remaining);
+            let x = (x0 + rng.range(-(x0 / 4).max(1), (x0 / 4).max(1))).clamp(0, 6144);
+            if x * x <= rest {
+                t[i] = if rng.chance(1, 2) { x } else { -x };
+                rest -= x * x;
+            }
+        }
+    } else {
+        // spread most of the mass randomly over all but the last 8 positions
+        let per = ((target as f64 / n as f64).sqrt() * 0.9) as i64;
+        for v in t.iter_mut().take(n - 8) {
+            let x = rng.range(-per.max(1), per.max(1));
+            if x * x <= rest {
+                *v = x;
+                rest -= x * x;
+            }
         }
     }
     // greedy squares, then a three-square search for what is left
@@ -238,6 +252,34 @@ pub fn unary_run_ops(ops: &mut Vec<Case>) {
             }
         }
     }
+    // runs far beyond the cap, with every combination of sign and extreme low bits: what a fixed-width composition
+    // `(run << 7) | low` does with them depends on all three (run 256 with the sign set and low = 0 is -(i16::MIN);
+    // run 512 wraps to `low`); the specification refuses every one of them
+    for r in [97usize, 127, 128, 255, 256, 257, 511, 512, 513] {
+        for neg in [false, true] {
+            for low in [0u32, 1, 127] {
+                for pos in [0usize, 2] {
+                    let mut bits: Vec<bool> = vec![];
+                    for i in 0..3usize {
+                        let (sg, lo, run) = if i == pos { (neg, low, r) } else { (i == 1, 5 + i as u32, 0) };
+                        bits.push(sg);
+                        for b in (0..7).rev() {
+                            bits.push((lo >> b) & 1 == 1);
+                        }
+                        bits.extend(std::iter::repeat(false).take(run));
+                        bits.push(true);
+                    }
+                    let mut bytes = vec![0u8; (bits.len() + 7) / 8 + 1];
+                    for (i, &b) in bits.iter().enumerate() {
+                        if b {
+                            bytes[i / 8] |= 0x80 >> (i % 8);
+                        }
+                    }
+                    ops.push(Case::new(format!("decompress 3 {}", hex(&bytes))));
+                }
+            }
+        }
+    }
 }
 
 pub fn generate(tier: &str, rng: &mut Prng) -> Vec<Case> {
@@ -313,6 +355,15 @@ pub fn generate(tier: &str, rng: &mut Prng) -> Vec<Case> {
                     push(&mut ops, n, &other, &s, &p);
                 }
                 push(&mut ops, n, &m, &s, &p);
+            }
+        }
+        // norms of k * 2^32 + d: far outside the bound, but inside it again for a norm that is accumulated or compared in
+        // 32 bits; the specification rejects all of them
+        for k in 1..=3i64 {
+            for dl in [0i64, 1000, bound(n), bound(n) + 1, -1] {
+                if let Some((m, s, p)) = exact_norm_triple(rng, n, (k << 32) + dl, (k + dl).rem_euclid(3) as u64) {
+                    push(&mut ops, n, &m, &s, &p);
+                }
             }
         }
         // unary runs long enough to wrap a 16-bit composition of the magnitude (512 zeros: 512 << 7 = 2^16): the
